@@ -110,6 +110,15 @@ def run_scheds(rep, binary, items, label, shards=12, env=None):
     rep.add_cases(okitems, nontrivial=lambda b: any(e["br"] == "blocked" for s in b for e in s["obs"]))
     for k, v in stats.items():
         rep.cov[label + "_" + k] = rep.cov.get(label + "_" + k, 0) + v
+    # which driver steps / setups were exercised (sanity: no action of IterStep never taken)
+    ops = collections.Counter()
+    for i, r in results.items():
+        if r.get("ok") and not r.get("inconclusive"):
+            beh = byn[i]["beh"]
+            ops["setup:%s/%s/%s/%s" % (beh[0]["arg"], beh[0]["it"], beh[0]["res"], "".join("b" if x else "n" for x in beh[0]["blocking"]))] += 1
+            for row in r.get("trace", []):
+                ops[row["op"] + ("@" + row["held_at"].split(".")[-1] if row.get("held_at") else "")] += 1
+    rep.cov[label + "_ops"] = dict(sorted(ops.items()))
     if stats["inconclusive"] > 0.05 * max(1, len(items)):
         rep.infra_error("%s: %d of %d schedules inconclusive" % (label, stats["inconclusive"], len(items)))
     if len(results) < len(items) - len(rerun):
@@ -283,14 +292,31 @@ def do_replay(rep, path):
         else:
             rep.add_cases([item["beh"]])
     elif "history" in obj:
-        acc, r, info = trace.validate("qiter", "IterTrace", "Trace.cfg", [obj["history"]])
-        rep.add_tlc("IterTrace/Trace.cfg", r, "re-validation of the saved history")
-        if acc is False:
-            rep.violation(data.get("key"), "history not explainable by IterTrace: %s" % json.dumps(info)[:300], obj)
-        elif acc is None:
-            rep.infra_error("trace validation did not complete: " + str(info)[:400])
+        first = obj["history"][0]
+        if "rec_seed" in first:
+            # a recorded history cannot be re-executed step by step (real concurrency): run the recorder again with the
+            # parameters of the run that produced it (a few times) and let TLC judge the fresh histories
+            for attempt in range(3):
+                rc, outs, err = harness.run(binary, ["record", str(first["rec_n"]), str(first["rec_seed"])], None, 900)
+                if rc != 0:
+                    if "github.com/tychoish/fun" in err and ("panic:" in err or "fatal error:" in err):
+                        rep.violation(data.get("key"), "recorder died: " + err[-1200:], obj)
+                    else:
+                        rep.infra_error("recorder failed: " + err[-600:])
+                    return
+                hists = [add_hints(o["hist"]) for o in outs if "hist" in o]
+                trace.validate_all(rep, "qiter", "IterTrace", "Trace.cfg", hists, label="qiter/trace", shards=6, key_fn=trace_key)
+                if rep.violations or rep.infra:
+                    return
         else:
-            rep.add_cases([obj["history"]])
+            acc, r, info = trace.validate("qiter", "IterTrace", "Trace.cfg", [obj["history"]])
+            rep.add_tlc("IterTrace/Trace.cfg", r, "re-validation of the saved history")
+            if acc is False:
+                rep.violation(data.get("key"), "history not explainable by IterTrace: %s" % json.dumps(info)[:300], obj)
+            elif acc is None:
+                rep.infra_error("trace validation did not complete: " + str(info)[:400])
+            else:
+                rep.add_cases([obj["history"]])
     else:
         rep.infra_error("replay file has neither a schedule nor a history")
 
@@ -342,8 +368,9 @@ def run(rep, tier, seed, replay_file=None):
                         + ("" if "pingpong" in cfg else " + liveness Settles"))
             if not r.ok:
                 models_ok = False
-                rep.infra_error("model check %s/%s failed (%s): the Impl spec no longer satisfies C20 - spec and code must be re-aligned\n%s"
-                                % (mod, cfg, r.violated, r.out[-1500:]))
+                why = ("%s violated: the Impl spec no longer satisfies C20 - spec and code must be re-aligned" % r.violated) if r.violated \
+                    else "TLC did not complete (rc=%s, timed out=%s)" % (r.rc, r.timed_out)
+                rep.infra_error("model check %s/%s failed: %s\n%s" % (mod, cfg, why, r.out[-1500:]))
         elif kind == "asis":
             inv, what = asis_what[(comp, cfg)]
             rep.self_test("%s/%s: %s -> TLC must report %s violated" % (mod, cfg, what, inv), r.violated == inv, str(r.brief()))
@@ -358,18 +385,18 @@ def run(rep, tier, seed, replay_file=None):
     # ---- 2. model -> code
     gen = {jobs[i][3]: replay.dedupe(res[i].tagged.get("BEH", [])) for i in range(len(jobs)) if jobs[i][0] == "gen"}
     edge = gen["Step_edge.cfg"]
-    nclasses = len({edge_class(b) for b in edge})
+    sample, nclasses = stratified(edge, 3, rng)
     if quick:
-        edge, nclasses = stratified(edge, 3, rng)
+        edge = sample
     behs = replay.dedupe(edge + gen["Step_sim.cfg"] + gen.get("Step_all.cfg", []))
+    # "mixed": iterator k of schedule n is driven through API (n+k) mod 3 (bare producer, Iterator.ReadOne, Iterator.Next)
     items = [dict(n=i, api="mixed", beh=b) for i, b in enumerate(behs)]
     if not quick:
-        # every short schedule also through each single API
-        short = gen.get("Step_all.cfg", [])
+        # and some schedules of every class of edge through each single API
         for api in ("producer", "readone", "next"):
-            items += [dict(n=len(items) + j, api=api, beh=b) for j, b in enumerate(short)]
+            items += [dict(n=len(items) + j, api=api, beh=b) for j, b in enumerate(sample)]
     rep.cov["edge_classes"] = nclasses
-    env = {"GOMAXPROCS": str(2 + seed % 3)}
+    env = {"GOMAXPROCS": str(1 + seed % 4)}
     results = run_scheds(rep, binary, items, "sched", shards=12, env=env)
     if items:
         mid = items[len(items) // 2]
@@ -388,7 +415,7 @@ def run(rep, tier, seed, replay_file=None):
                                                                          and e["res"] != "none" for e in h))
         rep.cov["histories_with_blocked_call_at_quiescence"] = sum(1 for h in hists if any(e.get("ev") == "quiescent" and e["blocked"] for e in h))
     rep.cov["rule"] = ("schedules = behaviours of IterStep (quick: 3 per class of edge of the abstract state graph + random; thorough: one per edge, "
-                       "all of length 4 through each API, random deep ones), executed on Queue.Producer/Iterator and every Deque producer/iterator "
+                       "all of length 4, 3 per class through each API, random deep ones), executed on Queue.Producer/Iterator and every Deque producer/iterator "
                        "variant with each operation in its own goroutine and every observation at quiescence judged against the allowed set TLC "
                        "printed; histories = concurrent random runs (iterators, adder, remover, closer, canceller, BlockingAdd) validated by "
                        "IterTrace; non-trivial schedule = some call is blocked at some step; non-trivial history = more than 4 events")
